@@ -4,7 +4,7 @@
 id=$1
 W=$(mktemp -d /tmp/rb_XXXX)
 found=""
-for rev in HEAD~1 HEAD~2 HEAD~3 HEAD~4 HEAD~5 HEAD~6 HEAD~8 HEAD~10; do
+for rev in HEAD HEAD~1 HEAD~2 HEAD~3 HEAD~4 HEAD~5 HEAD~6 HEAD~8 HEAD~10; do
   rm -rf $W/base $W/mut; mkdir -p $W/base
   git -C /repo archive $rev score_analysis | tar -x -C $W/base
   cp -r $W/base $W/mut
@@ -20,6 +20,7 @@ import re,sys
 p=sys.argv[1]; s=open(p).read()
 s=re.sub(r"np\.asarray\((tpr|fnr|tnr|fpr|topr|tonr)\)", r"np.asarray(\1, dtype=float)", s)
 s=s.replace("np.isclose(self.hard_pos_ratio, self.hard_neg_ratio)", "np.isclose(self.hard_pos_ratio, self.hard_neg_ratio, rtol=1e-12, atol=0.0)")
+s=s.replace("self.nb_easy_pos = nb_easy_pos\n", "self.nb_easy_pos = int(nb_easy_pos)\n").replace("self.nb_easy_neg = nb_easy_neg\n", "self.nb_easy_neg = int(nb_easy_neg)\n")
 open(p,"w").write(s)
 P
   fi
